@@ -227,8 +227,11 @@ pub struct Typed2 {
     pub a: Account<T4>,
     pub b: Mut<Account<T5>>,
     pub c: Option<Account<T6>>,
+    /// an account type of another program: a cross-IDL reference
+    pub foreign: Mut<Account<counter::CounterAccount>>,
 }
-set_desc!([] Typed2, Typed2ClientAccounts, 12, [], { a: Account<T4>, b: Mut<Account<T5>>, c: Option<Account<T6>> });
+set_desc!([] Typed2, Typed2ClientAccounts, 12, [], { a: Account<T4>, b: Mut<Account<T5>>, c: Option<Account<T6>>,
+    foreign: Mut<Account<counter::CounterAccount>> });
 
 macro_rules! ixs {
     ($( $ix:ident => $acc:ty ),* $(,)?) => {
@@ -532,9 +535,17 @@ pub struct T2 {
 }
 struct_sh!(T2, T2Owned, sized: [], unsized: [(a, List<u8>), (inner, UnsizedList<List<u8>>), (rest, RemainingBytes)]);
 
+/// a described type of another program used as a field: an external type
+impl Fx17 for counter::CounterAccountData {
+    fn xdesc(o: &mut Vec<i128>) {
+        o.extend([2, 5, 0, 1, 0, 14, 0, 14, 0, 8, 0, 1]);
+    }
+}
+
 #[unsized_type(program_account)]
 pub struct T3 {
     pub version: u8,
+    pub ext: counter::CounterAccountData,
     #[unsized_start]
     pub m: Map<u8, PackedValue<u16>, u8>,
     pub m2: Map<Pubkey, Checked>,
@@ -542,7 +553,7 @@ pub struct T3 {
     pub st: UnsizedString<u32>,
     pub um: UnsizedMap<u8, List<u8, u8>>,
 }
-struct_sh!(T3, T3Owned, sized: [(version, u8)], unsized: [(m, Map<u8, PackedValue<u16>, u8>), (m2, Map<Pubkey, Checked>),
+struct_sh!(T3, T3Owned, sized: [(version, u8), (ext, counter::CounterAccountData)], unsized: [(m, Map<u8, PackedValue<u16>, u8>), (m2, Map<Pubkey, Checked>),
     (set, Set<PackedValue<u32>>), (st, UnsizedString<u32>), (um, UnsizedMap<u8, List<u8, u8>>)]);
 
 /// a nested (non-account) unsized struct
